@@ -5,6 +5,7 @@ import (
 	"sort"
 	"strconv"
 	"sync"
+	"time"
 
 	"github.com/cybergarage/go-redis/redis"
 	"github.com/cybergarage/go-redis/redis/glob"
@@ -12,7 +13,10 @@ import (
 )
 
 // refStore is a Redis-faithful implementation of the primitive handler
-// operations (no expiry).  It is the handler for C12/C16: the framework's
+// operations.  Expiry is kept as the time to live that was last set (x, in
+// seconds) plus the deadline: nothing ever expires during a run (programs use
+// long times), but which commands keep, clear, set or move a key's expiry is
+// faithful.  It is the handler for C12/C16: the framework's
 // derived commands run on top of it; its own behaviour is validated against
 // RedisModel.tla in the same traces.  One mutex serialises primitives (a
 // primitive is atomic, as in Redis; commands composed of several primitives
@@ -34,7 +38,11 @@ type entry struct {
 	list []string
 	set  map[string]bool
 	zset map[string]float64
+	x    int       // time to live in seconds as last set; 0 = persistent
+	dl   time.Time // the deadline that goes with x
 }
+
+func secs(d time.Duration) int { return int((d + 500*time.Millisecond) / time.Second) }
 
 func newRefStore() *refStore { return &refStore{dbs: map[int]map[string]*entry{}} }
 
@@ -132,10 +140,23 @@ func (r *refStore) Exists(conn *redis.Conn, keys []string) (*redis.Message, erro
 func (r *refStore) Expire(conn *redis.Conn, key string, opt redis.ExpireOption) (*redis.Message, error) {
 	r.mu.Lock()
 	defer r.mu.Unlock()
-	if _, ok := r.db(conn)[key]; ok {
+	d := r.db(conn)
+	e, ok := d[key]
+	if !ok {
+		return ints(0), nil
+	}
+	now := time.Now()
+	t := secs(opt.Time.Sub(now))
+	cur := e.x // 0 = persistent = an infinite time to live for GT / LT
+	if (opt.NX && cur != 0) || (opt.XX && cur == 0) || (opt.GT && (cur == 0 || t <= cur)) || (opt.LT && cur != 0 && t >= cur) {
+		return ints(0), nil
+	}
+	if t <= 0 {
+		delete(d, key)
 		return ints(1), nil
 	}
-	return ints(0), nil
+	e.x, e.dl = t, opt.Time
+	return ints(1), nil
 }
 
 func (r *refStore) Keys(conn *redis.Conn, pattern string) (*redis.Message, error) {
@@ -191,10 +212,14 @@ func (r *refStore) Type(conn *redis.Conn, key string) (*redis.Message, error) {
 func (r *refStore) TTL(conn *redis.Conn, key string) (*redis.Message, error) {
 	r.mu.Lock()
 	defer r.mu.Unlock()
-	if _, ok := r.db(conn)[key]; ok {
+	e, ok := r.db(conn)[key]
+	if !ok {
+		return ints(-2), nil
+	}
+	if e.x == 0 {
 		return ints(-1), nil
 	}
-	return ints(-2), nil
+	return ints(secs(time.Until(e.dl))), nil
 }
 
 func (r *refStore) Scan(conn *redis.Conn, cursor int, opt redis.ScanOption) (*redis.Message, error) {
@@ -227,7 +252,21 @@ func (r *refStore) Set(conn *redis.Conn, key string, val string, opt redis.SetOp
 	if opt.XX && !exists {
 		return redis.NewNilMessage(), nil
 	}
-	d[key] = &entry{ty: "string", str: val}
+	ne := &entry{ty: "string", str: val}
+	now := time.Now()
+	switch {
+	case opt.KEEPTTL && exists:
+		ne.x, ne.dl = old.x, old.dl
+	case opt.EX > 0:
+		ne.x, ne.dl = secs(opt.EX), now.Add(opt.EX)
+	case opt.PX > 0:
+		ne.x, ne.dl = secs(opt.PX), now.Add(opt.PX)
+	case !opt.EXAT.IsZero():
+		ne.x, ne.dl = secs(opt.EXAT.Sub(now)), opt.EXAT
+	case !opt.PXAT.IsZero():
+		ne.x, ne.dl = secs(opt.PXAT.Sub(now)), opt.PXAT
+	}
+	d[key] = ne
 	switch {
 	case opt.NX:
 		return ints(1), nil
@@ -707,7 +746,7 @@ func (r *refStore) dump() []Ev {
 		ents := []Ev{}
 		for _, k := range keys {
 			e := d[k]
-			ev := Ev{"k": BS(k), "ty": e.ty}
+			ev := Ev{"k": BS(k), "ty": e.ty, "x": e.x}
 			switch e.ty {
 			case "string":
 				ev["v"] = BS(e.str)
